@@ -8,18 +8,19 @@ Read off the clang JSON AST, for EVERY definition of `prepareFFT` (syntax of coq
  * the file name: ONE `std::stringstream` local fed by ONE `<<` chain of string literals, the parameter `n` and at most one
    `char` local that an `if (direction == backward) .. else ..` before sets to a character literal in each branch; the
    chain must read `wisdom_<kind>_<n>.fftw` -> the kinds of the overload (one, or one per direction);
- * the path: `vfps::FSPath p(vfps::FSPath::datapath()); p.append("fftwisdom/" + <name>.str());` and nothing else may touch
-   `p` but `.c_str()` / `.str()` -> `PFSPathAppend` (the ONLY form understood: a path that is a plain string - whatever
-   builds it - creates no directory, and is refused);
+ * the path: `vfps::FSPath p(vfps::FSPath::datapath()); p.append("fftwisdom/" + <name>.str());` -> `PFSPathAppend`, or
+   `vfps::FSPath p(vfps::FSPath::datapath() + "fftwisdom/" + <name>.str());` -> `PFSPathFull` (the constructor validates
+   like append); nothing else may touch `p` but `.c_str()` / `.str()`.  These are the ONLY forms understood: a path that is a
+   plain string - whatever builds it - creates no directory, and is refused;
  * `if (fftw[f]_import_wisdom_from_filename(p.c_str()) != 0) { plan = fftw[f]_plan_..(.., FLAGS); }` -> `WImportThen [..]`;
  * `if (plan == nullptr) { plan = fftw[f]_plan_..(.., FLAGS); fftw[f]_export_wisdom_to_filename(p.c_str());
    Display::printText(..); }` -> `WIfNoPlan [..]` (statements in source order);
    FLAGS is evaluated as an integer constant: FFTW_WISDOM_ONLY (1<<21) -> `WPlan true`, else `WPlan false`; FFTW_ESTIMATE
    (1<<6) absent -> the planner measures run times (`wisdom_planner_timed`);
  * the precision of import / export / plan functions (`fftw_` / `fftwf_`) must be the same within one overload;
- * src/IO/FSPath.cpp: `FSPath::append` is `_path /= path; validateDirectory(_path); return *this;` and
+ * src/IO/FSPath.cpp: the constructor is `: _path(expand_user(path)) { validateDirectory(_path); }`, `FSPath::append` is `_path /= path; validateDirectory(_path); return *this;` and
    `validateDirectory` creates `path.parent_path()` (or `path` itself when it ends in '/') when `path` does not exist
-   -> `fspath_append_creates_parent`.
+   -> `fspath_ctor_validates`, `fspath_append_validates`, `fspath_validate_creates_parent`.
 Fails loudly (TranslateError) on any other statement of prepareFFT, a path built any other way, an import / export that
 names another path variable, a second assignment of `plan` outside the two ifs."""
 import sys, os, re
@@ -159,10 +160,27 @@ class Prep:
                 elif qt == "vfps::FSPath" and self.pathvar is None:
                     e = unwrap(ini) if ini is not None else {}
                     fc = fn_call(e)
-                    if not fc or fc[0] != "datapath" or fc[1]:
-                        raise TranslateError("%s: the wisdom path does not start at FSPath::datapath(): %s" % (self.sig, text_of(e)))
-                    self.pathvar = nm
-                    self.appended = False
+                    if fc and fc[0] == "datapath" and not fc[1]:
+                        self.pathvar, self.appended, self.pathform = nm, False, "PFSPathAppend"
+                        continue
+                    # the complete name handed to the constructor: FSPath p(FSPath::datapath() + "fftwisdom/" + name.str())
+                    parts = []
+
+                    def flat(x):
+                        x = unwrap(x)
+                        if x.get("kind") == "CXXOperatorCallExpr" and callee_name(kids(x)[0]) == "operator+" and len(kids(x)) == 3:
+                            flat(kids(x)[1])
+                            flat(kids(x)[2])
+                        else:
+                            parts.append(x)
+                    flat(e)
+                    ok = len(parts) == 3 and (fn_call(parts[0]) or (None, None))[0] == "datapath" and parts[1].get("kind") == "StringLiteral" \
+                        and parts[1]["value"].strip('"') == "fftwisdom/" and (member_call(parts[2]) or (None, None, None))[:2] == (self.namevar, "str") \
+                        and bool(self.kinds)
+                    if not ok:
+                        raise TranslateError("%s: the wisdom path is neither FSPath(FSPath::datapath()) followed by append(..) nor "
+                                             "FSPath(FSPath::datapath() + \"fftwisdom/\" + %s.str()): %s" % (self.sig, self.namevar, text_of(e)))
+                    self.pathvar, self.appended, self.pathform = nm, True, "PFSPathFull"
                 else:
                     raise TranslateError("%s: declaration of `%s` (%s) not understood - the wisdom path has to be a vfps::FSPath "
                                          "(FSPath::append creates the directory; a plain string does not)" % (self.sig, nm, qt))
@@ -255,6 +273,12 @@ def fspath_facts():
             defs[d.get("name")] = [c for c in kids(d) if c.get("kind") == "CompoundStmt"][0]
     if "append" not in defs or "validateDirectory" not in defs:
         raise TranslateError("FSPath::append / FSPath::validateDirectory not found in src/IO/FSPath.cpp")
+    ctors = [d for d in docs if d.get("kind") == "CXXConstructorDecl" and any(c.get("kind") == "CompoundStmt" for c in kids(d))]
+    ok_ctor = False
+    if len(ctors) == 1:
+        cb = [src_text(x, raw) for x in kids([c for c in kids(ctors[0]) if c.get("kind") == "CompoundStmt"][0]) if x.get("kind") != "NullStmt"]
+        inits = [c for c in kids(ctors[0]) if c.get("kind") == "CXXCtorInitializer"]
+        ok_ctor = cb in (["validateDirectory(_path)"], ["FSPath::validateDirectory(_path)"]) and len(inits) == 1
     ap = [src_text(x, raw) for x in kids(defs["append"]) if x.get("kind") != "NullStmt"]
     ok_append = ap in (["_path/=path", "validateDirectory(_path)", "return*this"], ["_path/=path", "FSPath::validateDirectory(_path)", "return*this"])
     vd = [x for x in kids(defs["validateDirectory"]) if x.get("kind") != "NullStmt"]
@@ -271,7 +295,7 @@ def fspath_facts():
                 rets.append(src_text(bs[0], raw) if len(bs) == 1 and bs[0].get("kind") == "ReturnStmt" else None)
             ok_val = c2 in ("(path.string().back())=='/'", "path.string().back()=='/'") and \
                 rets == ["returnfs::create_directories(path)", "returnfs::create_directories(path.parent_path())"]
-    return ok_append, ok_val
+    return ok_ctor, ok_append, ok_val
 
 
 def translate():
@@ -295,7 +319,7 @@ def translate():
     kinds = [k for p in preps for k in p.kinds]
     if len(set(kinds)) != len(kinds):
         raise TranslateError("two overloads of prepareFFT name the same wisdom file: %s" % kinds)
-    ok_append, ok_val = fspath_facts()
+    ok_ctor, ok_append, ok_val = fspath_facts()
     out = []
     out.append("(* GENERATED on every run by translate/wisdom2coq.py from src/FFTWWrapper.cpp (every definition of fft::prepareFFT)")
     out.append("   and src/IO/FSPath.cpp (FSPath::append, FSPath::validateDirectory). Do not edit. *)")
@@ -303,13 +327,15 @@ def translate():
     out.append("From Inovesa Require Import Model.Wisdom.")
     out.append("Import ListNotations.")
     out.append("Local Open Scope string_scope.")
+    out.append("(* the one constructor FSPath(std::string) is `: _path(..) { validateDirectory(_path); }` *)")
+    out.append("Definition fspath_ctor_validates : bool := %s." % ("true" if ok_ctor else "false"))
     out.append("(* FSPath::append is `_path /= path; validateDirectory(_path); return *this;` *)")
     out.append("Definition fspath_append_validates : bool := %s." % ("true" if ok_append else "false"))
     out.append("(* FSPath::validateDirectory(p) creates p.parent_path() (p itself when it ends in '/') when p does not exist *)")
     out.append("Definition fspath_validate_creates_parent : bool := %s." % ("true" if ok_val else "false"))
     out.append("(* one entry per definition of prepareFFT: wisdom kinds (file wisdom_<kind>_<n>.fftw), how the path is built, body *)")
     out.append("Definition wisdom_table : list prep :=\n  [%s]." % ";\n   ".join(
-        "mkprep [%s] PFSPathAppend\n     [%s]" % ("; ".join('"%s"' % k for k in p.kinds), ";\n      ".join(p.stmts)) for p in preps))
+        "mkprep [%s] %s\n     [%s]" % ("; ".join('"%s"' % k for k in p.kinds), p.pathform, ";\n      ".join(p.stmts)) for p in preps))
     out.append("(* signature of each definition, in the order of the table *)")
     out.append("Definition wisdom_signatures : list string :=\n  [%s]." % ";\n   ".join('"%s"' % p.sig.replace('"', "'") for p in preps))
     out.append("(* inline overloads that only forward (same n, same direction) to one of the above *)")
@@ -317,7 +343,7 @@ def translate():
     out.append("(* every plan call of every definition uses a planner that measures run times (no FFTW_ESTIMATE): which plan FFTW")
     out.append("   picks without stored wisdom is not a function of the problem - what the wisdom files are for *)")
     out.append("Definition wisdom_planner_timed : bool := %s." % ("true" if all(t for p in preps for t in p.timed) else "false"))
-    return "\n".join(out) + "\n", dict(preps=preps, kinds=kinds, timed=all(t for p in preps for t in p.timed), fspath=(ok_append, ok_val))
+    return "\n".join(out) + "\n", dict(preps=preps, kinds=kinds, timed=all(t for p in preps for t in p.timed), fspath=(ok_ctor, ok_append, ok_val))
 
 
 if __name__ == "__main__":
